@@ -1143,8 +1143,8 @@ class TemplateModel(object):
 
         with np.errstate(divide='ignore', invalid='ignore'):
             # take the average spike amplitude per template
-            templates_amps_v = (np.bincount(spikes, weights=spike_amps) /
-                                np.bincount(spikes))
+            templates_amps_v = (np.bincount(spikes, weights=spike_amps, minlength=n_wav) /
+                                np.bincount(spikes, minlength=n_wav))
             # scale back the template according to the spikes units
             templates_physical_unit = templates_wfs * (templates_amps_v / templates_amps_au
                                                        )[:, np.newaxis, np.newaxis]
